@@ -4564,7 +4564,7 @@ impl Watch {
 }
 
 const SOFT_BLOCKED_S: f64 = 8.0;
-const HARD_BLOCKED_S: f64 = 40.0;
+const HARD_BLOCKED_S: f64 = 30.0;
 
 fn classify_death(status: &std::process::ExitStatus, stderr: &str) -> String {
     use std::os::unix::process::ExitStatusExt;
@@ -5083,7 +5083,7 @@ fn parent_main(a: &Args) -> i32 {
     std::env::set_var("RUST_LIB_BACKTRACE", "0");
     let quick = ctx.quick();
     let t0 = Instant::now();
-    let budget_s: u64 = std::env::var("TV_C22_BUDGET_S").ok().and_then(|s| s.parse().ok()).unwrap_or(if quick { 62 } else { 540 });
+    let budget_s: u64 = std::env::var("TV_C22_BUDGET_S").ok().and_then(|s| s.parse().ok()).unwrap_or(if quick { 60 } else { 560 });
     let root = PathBuf::from(format!("{}/scratch/c22-{}", report::VERIF_DIR, std::process::id()));
     fresh_dir(&root);
     sweep_stale_work_roots();
@@ -5142,8 +5142,10 @@ fn parent_main(a: &Args) -> i32 {
         ctx.inconclusive(&format!("only {} SQL literals harvested from /repo/tests", penv.corpus.total));
     }
     ctx.extra.insert("setup_s".into(), json!(t0.elapsed().as_secs_f64()));
-    let deadline = Instant::now() + Duration::from_secs(budget_s);
-    let deadline_ms = now_ms() + budget_s * 1000;
+    // the budget counts from the start of the run (setup included)
+    let left = Duration::from_secs(budget_s).saturating_sub(t0.elapsed());
+    let deadline = Instant::now() + left;
+    let deadline_ms = now_ms() + left.as_millis() as u64;
 
     // job queue, units interleaved
     let mut queue: std::collections::VecDeque<Job> = Default::default();
@@ -5187,7 +5189,7 @@ fn parent_main(a: &Args) -> i32 {
 
     // investigation workers
     // wall budget of the whole run: quick <= 90 s, thorough <= 12 min
-    let stop_at = t0 + Duration::from_secs(if quick { 82 } else { 690 });
+    let stop_at = t0 + Duration::from_secs(if quick { 80 } else { 690 });
     let runner = Arc::new(OneRunner { exe: exe.clone(), root: root.clone(), tier: a.tier.clone(), seed: a.seed, counter: AtomicU64::new(0), stop_at });
     let results = Arc::new(Mutex::new(TaskResults::default()));
     let (tx, rx) = mpsc::channel::<Task>();
@@ -5315,7 +5317,7 @@ fn parent_main(a: &Args) -> i32 {
                             if soft_expired {
                                 ua.soft_expiries += 1;
                                 // the second stage needs up to 40 s (blocked) / 120 CPU-s (busy): only started if it fits the wall budget
-                                let needed = Duration::from_secs(if was_blocked { 44 } else { 135 });
+                                let needed = Duration::from_secs(if was_blocked { 34 } else { 135 });
                                 if Instant::now() + needed > stop_at {
                                     ctx.count(if was_blocked { "soft_deadline_blocked_cases_not_rerun_no_time_left" } else { "soft_deadline_busy_cases_not_rerun_no_time_left" }, 1);
                                     if suspects.len() < 6 {
@@ -5397,7 +5399,7 @@ fn parent_main(a: &Args) -> i32 {
         ctx.count(&k, n);
     }
     if !suspects.is_empty() {
-        ctx.extra.insert("hang_suspects_first_stage_only".into(), json!({"note": "exceeded the first-stage limit; the second stage (run alone, 120 CPU-s / 40 s blocked) did not fit into this tier's wall budget, so nothing is reported -- the thorough tier decides these", "cases": suspects}));
+        ctx.extra.insert("hang_suspects_first_stage_only".into(), json!({"note": "exceeded the first-stage limit; the second stage (run alone, 120 CPU-s / 30 s blocked) did not fit into this tier's wall budget, so nothing is reported -- the thorough tier decides these", "cases": suspects}));
     }
     if !tr.notes.is_empty() {
         ctx.extra.insert("notes".into(), Value::Array(tr.notes.into_iter().take(12).collect()));
@@ -5415,7 +5417,7 @@ fn parent_main(a: &Args) -> i32 {
         }
     }
     ctx.assumptions.push("workers run cases on a thread with an 8 MiB stack under RLIMIT_AS = 4 GiB; a stack overflow or allocation failure under these limits is reported (abort:stack_overflow / abort:alloc_abort)".into());
-    ctx.assumptions.push("hang rule: a call that burns 20 CPU-s (all threads of the worker), or during which every thread of the worker sleeps for 8 s without consuming CPU (blocked on a lock: thread states read from /proc), is abandoned and its case re-run alone with limits of 120 CPU-s / 40 s blocked; only the second expiry is reported as <...>/hang. Row-combination budget of generated statements: product of the cardinalities of all table references <= 50000; size arguments of string functions are <= 300 or >= 2^40 (unsatisfiable)".into());
+    ctx.assumptions.push("hang rule: a call that burns 20 CPU-s (all threads of the worker), or during which every thread of the worker sleeps for 8 s without consuming CPU (blocked on a lock: thread states read from /proc), is abandoned and its case re-run alone with limits of 120 CPU-s / 30 s blocked; only the second expiry is reported as <...>/hang. Row-combination budget of generated statements: product of the cardinalities of all table references <= 50000; size arguments of string functions are <= 300 or >= 2^40 (unsatisfiable)".into());
     ctx.assumptions.push("the harness profile has overflow-checks and debug-assertions on: signatures listed under signatures_depending_on_overflow_checks_or_debug_assertions are panics only in such a build (a release build wraps / skips the assertion)".into());
     ctx.assumptions.push("OwnedValue::Jsonb / ToastPointer parameters carry internal encodings; only empty or tiny payloads are passed (arbitrary bytes there are C23's domain)".into());
     ctx.exhaustive = Some(false);
